@@ -19,6 +19,7 @@ UNITS = {
     "bdd": dict(vspec="bdd.vspec"),
     "iters": dict(vspec="iters.vspec"),
     "ng": dict(vspec="ng.vspec"),
+    "adf": dict(vspec="adf.vspec"),
 }
 
 COMMON_ASSUME = [
